@@ -69,7 +69,8 @@ Section Spec.
     let a2 := items SAfterSC None st' (m_after_sc mc) (p2 + length mid + length a1) in
     (b1 ++ b2 ++ mid ++ a1 ++ a2, st').
 
-  Definition spec_step (ts : list trans) (cur : state) (p : nat) : list item * state * bool :=
+  (* everything up to (excluding) the finalize stage *)
+  Definition spec_body (ts : list trans) (cur : state) (p : nat) : list item * state * bool :=
     let pe := items SPrepareEvent None cur (m_prepare_event mc) p in
     let (sc, ch) := scan cur (candidates ts cur) (p + length pe) in
     let '(bd, st', res) :=
@@ -77,8 +78,11 @@ Section Spec.
       | None => ([], cur, false)
       | Some t => let (b, s') := body cur t (p + length pe + length sc) in (b, s', true)
       end in
-    let fin := items SFinalize None st' (m_finalize mc) (p + length pe + length sc + length bd) in
-    (pe ++ sc ++ bd ++ fin, st', res).
+    (pe ++ sc ++ bd, st', res).
+
+  Definition spec_step (ts : list trans) (cur : state) (p : nat) : list item * state * bool :=
+    let '(b, st', res) := spec_body ts cur p in
+    (b ++ items SFinalize None st' (m_finalize mc) (p + length b), st', res).
 
   (* the current state is not a source of the event *)
   Definition spec_invalid (cur : state) (p : nat) : list item * state * outcome :=
